@@ -188,7 +188,9 @@ func c12DecGen(t *rapid.T) []byte {
 		}
 		stream = append(stream, r.Encode()...)
 	}
-	switch rapid.IntRange(0, 7).Draw(t, "tailkind") {
+	switch rapid.IntRange(0, 8).Draw(t, "tailkind") {
+	case 8:
+		stream = append(stream, c12BigOffence(t, 70002)...)
 	case 6, 7:
 		r := Req{Name: Bin(rapid.SampledFrom([]string{"get", "set", "mget", "eval", "mset", "del"}).Draw(t, "nname"))}
 		for a := rapid.IntRange(1, 4).Draw(t, "nn"); a > 0; a-- {
